@@ -229,6 +229,11 @@ func runC12(c *runCfg) error {
 		{{"user", ""}, {"database", ""}},
 		{{"application_name", "psql"}, {"user", "bob"}, {"client_encoding", "UTF8"}, {"options", "-c x=y"}},
 		{{"k", "v"}, {"k2", "v2"}, {"user", "zed"}, {"k", "override"}},
+		// the client names keys the server announces itself: what the server reports about itself does not follow
+		// the client (it never transcodes, the session user is the authenticated user, ...)
+		{{"user", "eve"}, {"client_encoding", "LATIN1"}, {"server_encoding", "SQL_ASCII"}, {"is_superuser", "on"}, {"session_authorization", "postgres"}},
+		{{"client_encoding", "utf8"}, {"user", "eve"}, {"server_version", "99"}, {"TimeZone", "Mars/Olympus"}, {"application_name", "evil"}},
+		{{"user", "eve"}, {"client_encoding", "'UTF8'"}, {"DateStyle", "German"}, {"integer_datetimes", "off"}, {"standard_conforming_strings", "off"}},
 	}
 	for _, cfg := range cfgs {
 		for _, ps := range pairSets {
